@@ -75,8 +75,10 @@ def run(ctx, prop):
         ev = events[i - 1]
         if k == 9:
             raise vlib.ToolError("harness generated an archive outside the property's domain: %s" % ev.get("content"))
-        if k in want:
-            c = ev.get("content", {})
+        c = ev.get("content", {})
+        # mila cannot serialize a c-string-free archive or re-parse its own canonical image: C02 too
+        # ("produces exactly the canonical image", "parsing then re-serializing any canonical file reproduces it")
+        if k in want or (k == 8 and prop == "C02" and not c.get("cstr")):
             sig = {"dir": "impl->spec", "clause": CLAUSES[k], "mixed": bool(c.get("cstr")) and bool(c.get("text")),
                    "has_cstr": bool(c.get("cstr")), "endian": c.get("endian"), "file": ev.get("file", "")}
             if k == 8:
